@@ -54,6 +54,35 @@ def rx(src, pattern, conv=lambda x: x, flags=re.S):
     m = re.search(pattern, src, flags)
     return conv(m.group(1)) if m else None
 
+def const_expr(src, name):
+    """value of `const NAME: usize = <expr>;` where <expr> is built from integer literals, other
+    usize constants of the same file, size_of::<uN>(), uN::MAX and + - * / ( ) — else None"""
+    m = re.search(r"const\s+%s\s*:\s*usize\s*=\s*([^;]+);" % re.escape(name), src or "")
+    if not m:
+        return None
+    e = m.group(1)
+    e = re.sub(r"(?:std|core)::mem::size_of::<\s*[ui](\d+)\s*>\(\)", lambda k: str(int(k.group(1)) // 8), e)
+    e = re.sub(r"\bu(\d+)::MAX\b", lambda k: str(2 ** int(k.group(1)) - 1), e)
+    e = re.sub(r"\bas\s+(?:usize|u\d+)\b", "", e)
+    e = re.sub(r"(\d)_(?=\d)", r"\1", e)
+    for _ in range(8):
+        ids = set(re.findall(r"\b[A-Z][A-Z0-9_]*\b", e))
+        if not ids:
+            break
+        for i in ids:
+            if i == name:
+                return None
+            v = const_expr(src, i)
+            if v is None:
+                return None
+            e = re.sub(r"\b%s\b" % i, "(%d)" % v, e)
+    if not re.fullmatch(r"[0-9+\-*/() \t\n]+", e):
+        return None
+    try:
+        return int(eval(" ".join(e.split()).replace("/", "//"), {"__builtins__": {}}))
+    except Exception:
+        return None
+
 def unescape(s):
     return s  # labels are plain ASCII literals in this code base
 
@@ -67,11 +96,11 @@ ppoprf = strip_comments(read("ppoprf/src/ppoprf.rs"))
 put("modulus", "nat", rx(share_ff, r'PrimeFieldModulus\s*=\s*"(\d+)"', int), 340282366920938463463374607431768223907)
 put("generator", "nat", rx(share_ff, r'PrimeFieldGenerator\s*=\s*"(\d+)"', int), 2)
 put("reprLittleEndian", "bool", rx(share_ff, r'PrimeFieldReprEndianness\s*=\s*"(\w+)"', lambda s: s == "little"), True)
-put("fieldElementLen", "nat", rx(share_ff, r"const\s+FIELD_ELEMENT_LEN\s*:\s*usize\s*=\s*(\d+)", int), 24)
+put("fieldElementLen", "nat", const_expr(share_ff, "FIELD_ELEMENT_LEN"), 24)
 
 # adss
-put("accessStructureLength", "nat", rx(adss, r"const\s+ACCESS_STRUCTURE_LENGTH\s*:\s*usize\s*=\s*(\d+)", int), 4)
-put("macLength", "nat", rx(adss, r"const\s+MAC_LENGTH\s*:\s*usize\s*=\s*(\d+)", int), 64)
+put("accessStructureLength", "nat", const_expr(adss, "ACCESS_STRUCTURE_LENGTH"), 4)
+put("macLength", "nat", const_expr(adss, "MAC_LENGTH"), 64)
 share_fn = fn_body(adss, "share")
 put("adssKeyLen", "nat", rx(share_fn, r"let\s+mut\s+K\s*=\s*\[0u8;\s*(\d+)\]", int), 16)
 put("adssKeyPadLen", "nat", rx(share_fn, r"K_vec\.extend\(vec!\[0u8;\s*(\d+)\]\)", int), 16)
@@ -85,7 +114,7 @@ put("adssRecoverEncryptProto", "str", rx(rec_fn, r'Strobe::new\(b"([^"]*)"', une
 put("adssRecoverKeyLen", "nat", rx(rec_fn, r"key\[\.\.(\d+)\]", int), 16)
 
 # star
-put("starDigestLen", "nat", rx(star, r"const\s+DIGEST_LEN\s*:\s*usize\s*=\s*(\d+)", int), 32)
+put("starDigestLen", "nat", const_expr(star, "DIGEST_LEN"), 32)
 ske = fn_body(star, "derive_ske_key")
 put("starSkeKeyLen", "nat", rx(ske, r"to_fill\[\.\.(\d+)\]", int), 16)
 put("starDeriveSkeKeyLabel", "str", rx(ske, r'"([^"]*)"'), "star_derive_ske_key")
@@ -107,10 +136,10 @@ put("ggmInpLen", "nat", rx(ggm, r"GGM\s*\{\s*inp_len:\s*(\d+)", int), 1)
 put("ggmSeedLen", "nat", rx(fn_body(ggm, "sample_secret"), r"vec!\[0u8;\s*(\d+)\]", int), 32)
 
 # ppoprf
-put("compressedPointLen", "nat", rx(ppoprf, r"const\s+COMPRESSED_POINT_LEN\s*:\s*usize\s*=\s*(\d+)", int), 32)
-put("ppoprfDigestLen", "nat", rx(ppoprf, r"const\s+DIGEST_LEN\s*:\s*usize\s*=\s*(\d+)", int), 64)
-put("maxSerializedPkSize", "nat", rx(ppoprf, r"const\s+MAX_SERIALIZED_PK_SIZE\s*:\s*usize\s*=\s*(\d+)", int), 16384)
-put("maxSerializedProofSize", "nat", rx(ppoprf, r"const\s+MAX_SERIALIZED_PROOF_SIZE\s*:\s*usize\s*=\s*(\d+)", int), 64)
+put("compressedPointLen", "nat", const_expr(ppoprf, "COMPRESSED_POINT_LEN"), 32)
+put("ppoprfDigestLen", "nat", const_expr(ppoprf, "DIGEST_LEN"), 64)
+put("maxSerializedPkSize", "nat", const_expr(ppoprf, "MAX_SERIALIZED_PK_SIZE"), 16384)
+put("maxSerializedProofSize", "nat", const_expr(ppoprf, "MAX_SERIALIZED_PROOF_SIZE"), 64)
 put("clientInputLabel", "str", rx(fn_body(ppoprf, "blind"), r'strobe_hash\([^;]*?"([^"]*)"'), "ppoprf_derive_client_input")
 fin = fn_body(ppoprf, "finalize")
 put("finalizeLabel", "str", rx(fin, r'strobe_hash\([^;]*?"([^"]*)"'), "ppoprf_finalize")
